@@ -469,6 +469,32 @@ def f6_orientation(ck):
         good = f is not None and any(x[0] == "const" and x[1] == "weechess_core::board::File::ALL" for x in walk(f)) and any(x[0] == "const" and x[1] == "weechess_core::board::Rank::ALL" for x in walk(r)) \
             and any(is_call(x, "Iterator::rev") for x in walk(r)) and not any(is_call(x, "Iterator::rev") for x in walk(f))
     ck.req(good, "F6.writer", "writer", wr.where(), "the writer does not walk Rank::ALL reversed (8 -> 1) and File::ALL forward (a -> h)")
+    # F6.all_squares: the writer's loops over the ranks and the files run to the end: they are left only when the iterator is exhausted
+    # or a write failed (`?`).  A shortcut exit ("nothing left to write") changes the number of ranks / squares written.
+    succ_w = wr.successors()
+    n_loops = 0
+    for be in cfg.back_edges(wr):
+        loop = cfg.natural_loop(wr, be)
+        heads = [x for x in loop if wr.term(x)["k"] == "call" and is_iter_next(callee_name(wr.term(x)))]
+        if not heads:
+            continue
+        src = wtb.operand(wr.term(heads[0])["args"][0])
+        over = [x[1].split("::")[-2] for x in walk(src) if x[0] == "const" and x[1] in ("weechess_core::board::Rank::ALL", "weechess_core::board::File::ALL")]
+        if not over:
+            continue
+        n_loops += 1
+        for x in sorted(loop):
+            for s_ in succ_w[x]:
+                if s_ in loop or wr.is_cleanup(s_):
+                    continue
+                t = wr.term(x)
+                c = wtb.operand(t["discr"]) if t["k"] == "switch" else None
+                exhausted = c is not None and c[0] == "discr" and any(y[0] == "call" and is_iter_next(y[1]) for y in walk(c)) and x in cfg.dominators(wr).get(heads[0], set()) | {heads[0]} or \
+                    (c is not None and c[0] == "discr" and c[1][0] == "call" and is_iter_next(c[1][1]))
+                write_failed = c is not None and c[0] == "discr" and c[1][0] == "call" and c[1][1].endswith("Try>::branch")
+                ck.req(exhausted or write_failed, "F6.all_squares", "%s loop@bb%d" % (over[0], x), wr.where(t.get("line")),
+                       "the writer can leave its loop over %s::ALL early (on %s): some ranks / squares are not written" % (over[0], show(c)[:80] if c else t["k"]))
+    ck.floor("F6", n_loops, 2, "writer loops over Rank::ALL and File::ALL")
     bp = ck.body(BOARD_PARSE, "F6")
     btb = TermBuilder(prog, bp)
     # map[square] = piece with square = Square::from((file(sq0), opposing_rank(rank(sq0)))), sq0 = Square::try_from(location_index)
